@@ -44,8 +44,12 @@ TNew ==
         ELSE Accept(FixCk(NewData(h, E.n)), NewData(h, E.n), TRUE)
 
 TAppend == E.ev \in {"append", "append_slice"} /\ Accept(FixCk(GrowPlain(data, E.v)), GrowPlain(ghost, E.v), TRUE)
+\* pushing NO bytes through the sink: the property leaves open whether that counts as an append (Length and checksum
+\* rewritten, like an empty slice append) or as nothing at all -- both are accepted
 TSink == E.ev \in {"sink", "sink_vec"}
-         /\ Accept(SinkNext(data, E.v), FoldLeft(LAMBDA acc, b : GrowPlain(acc, <<b>>), ghost, E.v), Len(E.v) > 0)
+         /\ IF Len(E.v) = 0 /\ E.slice = FixCk(GrowPlain(data, <<>>))
+            THEN Accept(FixCk(GrowPlain(data, <<>>)), GrowPlain(ghost, <<>>), FALSE)
+            ELSE Accept(SinkNext(data, E.v), FoldLeft(LAMBDA acc, b : GrowPlain(acc, <<b>>), ghost, E.v), Len(E.v) > 0)
 TWrite == /\ E.ev \in {"write", "write_bytes"}
           /\ IF Has(E, "off_huge") \/ ~Fits(data, E.off, E.v) THEN Refuse
              ELSE Accept(FixCk(Patch(data, E.off, E.v)), Patch(ghost, E.off, E.v), FALSE)
